@@ -86,6 +86,29 @@ class Program:
                             self.add_class(n, mod, p)
         self._mro = {}
         self._summ = {}
+        self.to_cy_fresh, self.to_cy_why = self._to_cy_is_a_copy()
+
+    def _to_cy_is_a_copy(self):
+        """core/_ext/types.py: to_cy(arr, ty) is the conversion every method uses before it hands an array to a kernel or
+        edits it; the frame analysis treats its result as a fresh array only if the function is literally
+        `return arr.astype(..., copy=True, ...)` (or without a copy keyword: NumPy's default is a copy).  Otherwise the
+        result may be the argument itself and every in-place edit of it is an edit of the argument."""
+        for p, tree in self.files.items():
+            if p.replace(os.sep, "/").endswith("core/_ext/types.py"):
+                for n in tree.body:
+                    if isinstance(n, ast.FunctionDef) and n.name == "to_cy":
+                        body = [s for s in n.body if not (isinstance(s, ast.Expr) and isinstance(s.value, ast.Constant))]
+                        if len(body) == 1 and isinstance(body[0], ast.Return) and isinstance(body[0].value, ast.Call):
+                            c = body[0].value
+                            if isinstance(c.func, ast.Attribute) and c.func.attr == "astype" and isinstance(c.func.value, ast.Name) \
+                                    and c.func.value.id == n.args.args[0].arg:
+                                for kw in c.keywords:
+                                    if kw.arg == "copy" and not (isinstance(kw.value, ast.Constant) and kw.value.value is True):
+                                        return False, "astype(copy=%s)" % ast.unparse(kw.value)
+                                return True, "astype with copy=True"
+                        return False, "to_cy is no longer a single `return arr.astype(...)`"
+                return False, "to_cy not found in core/_ext/types.py"
+        return True, "core/_ext/types.py not part of the analysed tree"
 
     def add_class(self, n, mod, path):
         ci = ClassInfo(n.name, mod, path, n)
@@ -461,7 +484,8 @@ class Analyzer:
             f = self.field_of(value)
             if f is not None:
                 self.aliases[t.id] = f
-            elif isinstance(value, ast.Call) and dotted(value.func) in MAY_ALIAS_FUNCS and value.args \
+            elif isinstance(value, ast.Call) and (dotted(value.func) in MAY_ALIAS_FUNCS or
+                                                  (dotted(value.func) == "to_cy" and not self.prog.to_cy_fresh)) and value.args \
                     and self.arg_target(value.args[0]) is not None:
                 # np.asarray(x) / np.ravel(x) / ... return x itself (or a view) whenever no conversion is needed
                 self.aliases[t.id] = self.arg_target(value.args[0])
